@@ -124,7 +124,7 @@ def gen_extra(g, name):
                 a["coefs"][k] = G.nested_map(lambda v: 0 if kind == "int" else 0.0, a["coefs"][k])
         case["operands"] = [a, b]
     if name == "program":
-        case["kw"] = {"which": rng.randrange(6), "c": rng.choice([1, 2, 3]), "n": rng.choice([2, 3])}
+        case["kw"] = {"which": rng.randrange(7), "c": rng.choice([1, 2, 3]), "n": rng.choice([2, 3])}
     if name == "finite":
         # a non-constant term whose coefficients are non-finite in every element
         a = g.poly(shape=shape, kind="float", maxexp=3, nterms=rng.choice([2, 3]), allow_views=False)
@@ -206,6 +206,17 @@ def run_extra(case, real):
         if which == 3:
             p = numpoly.polynomial({(0, 0): [1, c], (1, 0): [0, 0], (0, 1): [3, 4]}, names=("q0", "q1"))
             return p, pickle.loads(pickle.dumps(p)) * 2, p[0], numpoly.concatenate([p, p + q0])
+        if which == 6:
+            # a narrow coefficient type and a variable that only occurs in terms that cancel:
+            # result dtypes must not depend on whether the zero terms are still stored
+            x = numpoly.polynomial(q0, dtype="float32")
+            y = numpoly.polynomial(q1, dtype="float32")
+            cross = x * y * numpy.float32(c)
+            p = cross - cross + numpy.float32(1.5) * x
+            k = numpoly.polynomial(q0 * c, dtype="int16") * numpoly.polynomial(q2, dtype="int16")
+            z = k - k + numpoly.polynomial(q0, dtype="int16")
+            return (numpoly.derivative(p, "q1"), numpoly.derivative(p, "q0"), numpoly.derivative(z, "q2"),
+                    numpoly.gradient(z), p * y, z + k)
         if which == 4:
             p = numpoly.polynomial([[q0 * q2, c], [q1 - q1, q2 ** n]])
             return p.T, numpoly.sum(p, axis=0), numpoly.prod(p, axis=1), p @ p, numpoly.diag(p)
@@ -304,6 +315,10 @@ def run_case(case, ctx):
         setting = {k: v for k, v in setting.items() if k not in SORT_OPTIONS}
     if name == "poly_divmod":
         setting = {k: v for k, v in setting.items() if k not in RETAIN_OPTIONS}
+    if name == "program" and case["kw"].get("which") == 6:
+        # (this program names indeterminates whose terms cancel: with retain_names off they are
+        # legitimately gone and cannot be designated)
+        setting = {k: v for k, v in setting.items() if k != "retain_names"}
     changed = {k: v for k, v in setting.items() if defaults.get(k) != v}
     specs = case["operands"]
     exact = all(G.spec_features(s)["coef"] in ("int", "int64", "bool") for s in specs) and \
@@ -326,6 +341,15 @@ def run_case(case, ctx):
         with numpoly.global_options(**setting):
             got = execute(case, real)
             f1 = fingerprint(got)
+            # no operation changes the option set it runs under
+            now = numpoly.get_options()
+            want_options = dict(defaults, **setting)
+            if now != want_options:
+                moved = {k: (now.get(k), want_options.get(k)) for k in set(now) | set(want_options)
+                         if now.get(k) != want_options.get(k)}
+                ctx.violation(dict(facts, failure="options_changed"),
+                              f"{name}: the operation left the global options changed: {moved}", case)
+                return
     except Exception as err:  # pylint: disable=broad-except
         facts["failure"] = exc_fact(err)
         ctx.violation(facts, f"{name} fails under {changed} but works under defaults: "
